@@ -230,6 +230,14 @@ def stress_texts(tier):
         "unclosed-meta": "---\nmeta: 1\n",
         "meta-only": "---\na: 1\n---\n",
         "empty": "",
+        "trailing-cr": "# title\r",
+        "trailing-cr-para": "text\n\nmore\r",
+        "lone-cr-middle": "a\rb\n\n# h\rz\n",
+        "trailing-spaces": "text   \n   \n",
+        "only-cr": "\r",
+        "tabs": "\t- a\n\t\t- b\n\tc\n",
+        "deep-one-line-quotes": ">" * 64 + " text\n",
+        "deep-one-line-items": "- " * 40 + "x\n",
     }
     return out
 
@@ -259,6 +267,10 @@ def total_extra(res, work, tier):
         corpus.append({"id": "mutation:%d" % i, "text": mutate(rnd, rnd.choice(texts))})
     for name, t in stress_texts(tier).items():
         corpus.append({"id": "stress:" + name, "text": t})
+    if tier == "thorough":
+        # beyond the recursion depth the code survives (open finding F-C03-2)
+        corpus.append({"id": "stress:siblings-paragraphs-10000", "text": "".join("para %d\n\n" % i for i in range(10000)), "siblings": 10000})
+        corpus.append({"id": "stress:siblings-items-20000", "text": "".join("- item %d\n" % i for i in range(20000)), "siblings": 20000})
     shards = 12
     paths = []
     for s in range(shards):
@@ -289,7 +301,9 @@ def total_extra(res, work, tier):
             # the child died on text `begun`
             if begun > done:
                 with open(out, "a") as f:
-                    f.write(json.dumps({"ev": "Total", "i": begun, "id": "?", "bad": [["process", "abort(rc=%s)" % rc]], "ops": 0, "ms": 0}) + "\n")
+                    item = json.loads(open(inp).readlines()[begun])
+                    f.write(json.dumps({"ev": "Total", "i": begun, "id": item.get("id", "?"), "bad": [["process", "abort"]], "ops": 0, "ms": 0,
+                                        "siblings": item.get("siblings", 0)}) + "\n")
                 start = begun + 1
             else:
                 start = done + 1
@@ -302,11 +316,14 @@ def total_extra(res, work, tier):
     for s, o in enumerate(outs):
         tr = os.path.join(work, "total_tr.%d.ndjson" % s)
         items = [json.loads(l) for l in open(paths[s])]
+        devs = [f["id"] for f in known_findings() if f["status"] == "open" and f["property"] == "C03"]
         with open(tr, "w") as f:
+            f.write(json.dumps({"ev": "Config", "devs": devs}) + "\n")
             for line in open(o):
                 e = json.loads(line)
                 if e["ev"] == "Total":
-                    f.write(line)
+                    e.setdefault("siblings", items[e["i"]].get("siblings", 0))
+                    f.write(json.dumps(e) + "\n")
                     total += 1
         r = tlc("Trace_Total.tla", "Trace_Total.cfg", os.path.join(work, "trt_%d" % s), workers=1, timeout=1800, env={"TRACE": tr},
                 trace_mode=True, heap="2g")
@@ -314,6 +331,10 @@ def total_extra(res, work, tier):
             raise ToolError("Trace_Total did not consume %s:\n%s" % (tr, r["out"][-2000:]))
         for v in prints(r["out"], "VERDICT"):
             item = items[v["i"]]
+            if not v["bad"]:
+                for fid in v["explained"]:
+                    res.known(fid, [f for f in known_findings() if f["id"] == fid][0]["what"])
+                continue
             p = save_replay(work, "C03_total_%s" % item["id"].replace(":", "_"), {"property": "C03", "reasons": v["bad"], "id": item["id"], "text": item["text"][:20000]})
             res.violation(p, "%s %s: %s" % (item["id"], json.dumps(item["text"][:60]), json.dumps(v["bad"])[:200]))
     res.cov["total_texts"] = total
